@@ -33,7 +33,7 @@ def run(tier, seed):
     exe = vkit.cc("eventcore_drv", ["eventcore_drv.c"], vclock=True)
     c = ec.consts({1, 2, 3, 4, 5}, A, 10 if q else 16, durs=(0, 1, 2))
     hs = ec.generate(chk, "C11_gen", c, simulate=40 if q else 400, depth=500, seed=seed, invariants=ec.INV_LIST + ["Emit"],
-                     max_hist=300 if q else 6000)
+                     max_hist=300 if q else 800)
     configs = [dict(backend="epoll"), dict(backend="epoll", threads=1), dict(backend="poll", tick_ns=1000000)] if q else \
               [dict(backend="epoll"), dict(backend="epoll", threads=1), dict(backend="epoll", changelist=1), dict(backend="poll", tick_ns=1000000),
                dict(backend="select"), dict(backend="epoll", signalfd=1), dict(backend="poll", tick_ns=1000000, signalfd=1)]
@@ -42,7 +42,7 @@ def run(tier, seed):
         pts = fork_points(h)
         if not pts:
             continue
-        for k in (pts if not q else rnd.sample(pts, min(len(pts), 2))):
+        for k in rnd.sample(pts, min(len(pts), 2 if q else 4)):
             fo = dict(base_obs(h[k - 1]["o"])); fo["r"] = 0
             parent = h[:k] + [{"a": "fork", "o": fo}] + h[k:]
             child = [{"a": "reinit", "o": fo}] + h[k:]
